@@ -149,7 +149,8 @@ def rule_finish_predicates(ctx: Ctx, out: Collector) -> None:
     loops = set()
     for fid, g in ctx.run_graphs().items():
         for lp, region, wait in launch_loops(ctx, g):
-            loops.add(id(wait.node))
+            if wait is not None:
+                loops.add(id(wait.node))
     for g, ev in _waits(ctx):
         pred = ev.info.get('pred')
         if pred is None:
@@ -185,6 +186,8 @@ def rule_finish_predicates(ctx: Ctx, out: Collector) -> None:
 
 def _is_launch_wait(ctx: Ctx, g: Graph, ev: Ev) -> bool:
     for lp, region, wait in launch_loops(ctx, g):
+        if wait is None:
+            continue
         if wait is ev or wait.node is ev.node and wait.info.get('pred') and ev.info.get('pred') \
                 and wait.info['pred'][0] is ev.info['pred'][0]:
             return True
@@ -209,6 +212,8 @@ def rule_ready_strict(ctx: Ctx, out: Collector) -> None:
     seen = set()
     for fid, g in ctx.run_graphs().items():
         for lp, region, wait in launch_loops(ctx, g):
+            if wait is None:
+                continue        # RD-1 reports the missing wait
             pred = wait.info.get('pred')
             if pred is None:
                 raise AnalysisError(f'readiness predicate at {wait.where()} cannot be resolved')
@@ -256,7 +261,7 @@ def rule_ready_strict(ctx: Ctx, out: Collector) -> None:
             else:
                 out.bad('RD-2', name, wait.where(), 'readiness is not strict: ' + '; '.join(problems[:4]),
                         [f'{k}: {v}' for k, v in table.items() if any(k.split(", P ")[-1] in pr for pr in problems)][:12], table=table)
-    if n == 0:
+    if n == 0 and not any(launch_loops(ctx, g) for g in ctx.run_graphs().values()):
         raise AnalysisError('no readiness predicate found (RD-2 anchor vanished)')
 
 
